@@ -622,6 +622,14 @@ func genC12(r *Rng, tier string, emit func(Case)) {
 		}
 	}
 	emit(Case{Op: "c12.playable -", Tags: []string{"playable-probe"}})
+	// very many events on one tick
+	huge := []int{3000, 70000}
+	if tier == "thorough" {
+		huge = []int{3000, 70000, 1<<20 + 60, 1<<21 + 60}
+	}
+	for i, hn := range huge {
+		emit(Case{Op: fmt.Sprintf("c12.huge n=%d via=%s", hn, []string{"play", "multi"}[i%2]), Tags: []string{"huge-tick"}, NonTrivial: true})
+	}
 	n := 700
 	if tier == "thorough" {
 		n = 5000
@@ -704,6 +712,9 @@ type c12Pos struct{ track, idx int }
 func runC12(c Case, m *Model) (v Verdict) {
 	if strings.HasPrefix(c.Op, "c12.playable ") {
 		return runC12Playable(c, m)
+	}
+	if strings.HasPrefix(c.Op, "c12.huge ") {
+		return runC12Huge(c, m)
 	}
 	cs, err := parseC12(c.Op)
 	if err != nil {
